@@ -38,7 +38,7 @@ CHECKS = {
          "DESIGN.md 4 C08", "Clean restart = drop, wait for the old instance's flush thread to exit (sync point walthread.exit), reopen; in-flight background flushes are waited out before the handle is dropped.",
          "model-based (stateful) property-based testing with proptest against a reference model"),
  "C13": ("exploration",
-         "Model-based histories of batches with arbitrary column subsets from an adversarial name pool (case pairs, non-ASCII, > 64 bytes, first/last in sort order, prefixes) over 1-3 tables, interleaved with flush/compaction/restart; after every step SELECT *, the per-table column catalogue and the table catalogue must list every name ever ingested exactly once and every cell must equal the model (NULL where a batch did not mention the column).",
+         "Model-based histories of batches with arbitrary column subsets from an adversarial name pool (case pairs, non-ASCII, > 64 bytes, first/last in sort order, prefixes) over 1-3 tables, interleaved with flush/compaction/restart; after every step SELECT *, the per-table column catalogue and the table catalogue must list every name ever ingested exactly once and every cell must equal the model (NULL where a batch did not mention the column); after every restart and at the end each column is also read on its own and split by IS NULL / IS NOT NULL, and LocustDB::search_column_names is compared with the model; a quarter of the histories use a pool of even-length hex names in lower, upper and mixed case (the catalogue table's own string codec).",
          "DESIGN.md 4 C13", "Column names containing a double quote are not generated; each name keeps one value type.",
          "model-based (stateful) property-based testing with proptest against a reference model"),
  "C18": ("exploration",
